@@ -79,7 +79,7 @@ def run(ck):
 
     # ---- (a) the real _get_balanced_split on every n for several f ----
     fs = [0.0, 0.05, 0.1, 0.25, 0.125, 0.2, 0.3, 0.45, 0.5, 1 / 3, 0.07]
-    nmax = ck.n(160, 1200)
+    nmax = min(ck.n(160, 1200), 1600)
     m = xr.xRFM(verbose=False, max_leaf_size=10)
     cases = []
     obs = {}
@@ -125,9 +125,9 @@ def run(ck):
                   'correspondence', not bad, f'first mismatches: {bad[:10]}')
 
     # refill cap: int(len(X) * 0.2) vs floor(n / 5) and the float model, for all n up to a bound (finite sweep, in Coq)
-    nb = ck.n(3000, 60000)
+    nb = 60000 if ck.tier == 'thorough' else 3000          # a fixed bound (not scaled): the sweep is evaluated inside Coq over nat
     vf = coq_float(m.val_size_frac)
-    sweep = (f'forallb (fun k => match frac_count_float {vf} (Z.of_nat k) with Some c => c =? refill_cap_exact (Z.of_nat k) | None => false end) (seq 0 {nb})')
+    sweep = (f'forallb (fun k => match frac_count_float {vf} (Z.of_nat k) with Some c => c =? refill_cap_exact (Z.of_nat k) | None => false end) (seq 0 (Z.to_nat {nb}%Z))')
     r2 = ck.run_bool_cases('cap', HEADER, [('cap', sweep)])
     py_ok = all(int(n * m.val_size_frac) == n // 5 for n in range(nb))
     ck.obligation(f'float model of int(len(X)*val_size_frac) == n/5 for all n < {nb} (vm_compute sweep) and python agrees',
